@@ -12,7 +12,7 @@
    m bytes (all but one at most when term = None: a short write without error) and reports term. *)
 From Coq Require Import String.   (* first, so that List.length etc. from Lib.Base take precedence *)
 From Verif Require Import Lib.Base Lib.Sx Lib.Err Lib.IO Model.ErrorsPkg Model.Faults.
-From Verif Require Import Proofs.ErrorsPkg Proofs.FaultsIO Proofs.Faults Proofs.FaultsFlv Proofs.FaultsWrite Proofs.FaultsBufw.
+From Verif Require Import Proofs.ErrorsPkg Proofs.FaultsIO Proofs.Faults Proofs.FaultsFlv Proofs.FaultsWrite Proofs.FaultsBufw Proofs.FaultsBufwSim.
 From Verif Require Model.Flv Proofs.Flv.
 From Verif Require Gen.Gen_errors.
 From Verif Require Model.RtmpChunk Proofs.RtmpChunk Proofs.RtmpChunkRT Proofs.FaultsRtmpChunk.
@@ -278,6 +278,17 @@ Theorem c08_rtmp_read (hs : bool) ms fuel str (hsb : bytes) k t :
           Model.FaultsRtmp.io_code e)).
 Proof. exact (Proofs.FaultsRtmpG.io_session_spec hs ms fuel str hsb k t). Qed.
 
+(* non-vacuity: one 300-byte video message on chunk stream 3 written by their WriteMessage model,
+   cut after 200 bytes delivered in 7-byte pieces with the injected error 4 arriving with the last
+   piece: no message, error 1000+4; cut exactly after the whole message: the message, then EOF (1) *)
+Example c08_rtmp_read_example2 :
+  let m := Model.RtmpChunk.mkmsg 3 1000 9 1 (repeat 7 300) in
+  let w := match Model.RtmpChunk.write_message 128 m with Ok (w, _) => w | _ => [] end in
+  lenN w = 314 /\
+  Model.FaultsRtmp.io_session false 400 (mk_stream (firstn 200 w) [7] 4 true) = (0, [], 1004) /\
+  Model.FaultsRtmp.io_session false 400 (mk_stream w [7] id_EOF false) = (0, [m], 1).
+Proof. vm_compute. auto. Qed.
+
 (* the plan covers exactly the bytes of the wire: "k <= length of the wire" above is
    "k <= size of the plan" *)
 Theorem c08_rtmp_plan_size ms c ws :
@@ -319,6 +330,26 @@ Proof.
   destruct (rtmp_write_session hs ms w0) as [[n oe] w]. unfold session_ok in H.
   destruct oe as [e|]; cbn [app] in H; exact H.
 Qed.
+
+(* WHICH operation fails, as a function of the write-call index i (handshake writes included):
+   the run over the transport failing at call i and the run over the transport that never fails are
+   in lock step until the fault-free run issues its call number i.  `free_done i hs ms` counts, in the
+   fault-free run, the operations (c0, c1, c2, then one per message) that are complete before that
+   call; `free_calls` is the number of transport writes of the whole fault-free session.  The faulty
+   session completes exactly free_done operations, and it ends without error iff the fault index
+   lies beyond the last write. *)
+Theorem c08_rtmp_write_which hs ms i m term :
+  let '(n, oe, w) := rtmp_write_session hs ms (wtr_new (Some i) m term) in
+  n = free_done i hs ms m term /\
+  (oe = None <-> free_calls hs ms m term <= i).
+Proof. exact (rtmp_write_session_which hs ms i m term). Qed.
+
+(* non-vacuity: handshake + a 300-byte message: 3 + 1 transport writes; fault at call 2 (c2) and 3 *)
+Example c08_rtmp_write_which_example :
+  let ms := [mk_rmsg 0 3 9 1000 300 0] in
+  free_calls true ms 0 None = 4 /\ free_done 2 true ms 0 None = 2 /\ free_done 3 true ms 0 None = 3 /\
+  free_done 4 true ms 0 None = 4.
+Proof. vm_compute. auto. Qed.
 
 (* and no spurious failure: on a transport that never fails every operation succeeds and the peer
    has the whole wire *)
@@ -367,5 +398,6 @@ Print Assumptions c08_rtmp_reader_is_theirs.
 Print Assumptions c08_rtmp_read.
 Print Assumptions c08_rtmp_plan_size.
 Print Assumptions c08_rtmp_write_partial.
+Print Assumptions c08_rtmp_write_which.
 Print Assumptions c08_rtmp_write_no_fault.
 Print Assumptions c08_bufio_write_ops.
